@@ -606,3 +606,63 @@ where
 
 #[allow(dead_code)]
 fn _unused<T: Borrow<u8>>(_: T) {}
+
+// ------------------------------------------------------------ merge probe
+/// The stages of `merge_cond2` replayed through the public API on plain arrays: for every joint value (x1,x2)
+/// the largest |P(x1x2 | y)| over y that the final inversion's "impossible under every y" test sees.  Used only
+/// to classify a failure of the impossible-cell predicate (known finding KF2): numbers as for `merge`.
+macro_rules! merge_probe_impl {
+    ($name:ident, $V:ty, $n1:literal, $n2:literal, $ny:literal) => {
+        pub fn $name(x: &[$V]) -> Out<$V> {
+            use subjective_logic::multi_array::non_labeled::MArr2;
+            let mut r = Rd::new(x);
+            let c1: [Simplex<[$V; $ny], $V>; $n1] = r.conds();
+            let c2: [Simplex<[$V; $ny], $V>; $n2] = r.conds();
+            let a1: [$V; $n1] = r.vec();
+            let a2: [$V; $n2] = r.vec();
+            let ay: [$V; $ny] = r.vec();
+            let m1: Option<[$V; $ny]> = mbr::<usize, usize, _, _, [$V; $ny], $V>(&a1, &c1);
+            let m2: Option<[$V; $ny]> = mbr::<usize, usize, _, _, [$V; $ny], $V>(&a2, &c2);
+            let x1_y = InverseCondition::<usize, usize, [$V; $n1], [$V; $ny], $V>::inverse(&c1, &a1, m1.as_ref().unwrap_or(&ay));
+            let x2_y = InverseCondition::<usize, usize, [$V; $n2], [$V; $ny], $V>::inverse(&c2, &a2, m2.as_ref().unwrap_or(&ay));
+            let x12_y: [Simplex<MArr2<$V, $n1, $n2>, $V>; $ny] = std::array::from_fn(|y| {
+                let w: Opinion<MArr2<$V, $n1, $n2>, $V> = Product2::product2(
+                    OpinionRef::from((&x1_y[y], &a1)),
+                    OpinionRef::from((&x2_y[y], &a2)),
+                );
+                w.simplex
+            });
+            let ax12: MArr2<$V, $n1, $n2> = mbr::<usize, [usize; 2], _, _, MArr2<$V, $n1, $n2>, $V>(&ay, &x12_y)
+                .unwrap_or_else(|| <MArr2<$V, $n1, $n2> as Product2<&[$V; $n1], &[$V; $n2]>>::product2(&a1, &a2));
+            let mut out = vec![<$V as num_traits::Zero>::zero(); $n1 * $n2];
+            for y in 0..$ny {
+                let p: MArr2<$V, $n1, $n2> = x12_y[y].projection::<[usize; 2]>(&ax12);
+                for i in 0..$n1 {
+                    for j in 0..$n2 {
+                        let v = num_traits::Float::abs(p[[i, j]]);
+                        if v > out[i * $n2 + j] || v.is_nan() {
+                            out[i * $n2 + j] = v;
+                        }
+                    }
+                }
+            }
+            Out::Ok(out)
+        }
+    };
+}
+merge_probe_impl!(merge_probe_f64_222, f64, 2, 2, 2);
+merge_probe_impl!(merge_probe_f64_223, f64, 2, 2, 3);
+merge_probe_impl!(merge_probe_f64_232, f64, 2, 3, 2);
+merge_probe_impl!(merge_probe_f64_233, f64, 2, 3, 3);
+merge_probe_impl!(merge_probe_f64_322, f64, 3, 2, 2);
+merge_probe_impl!(merge_probe_f64_323, f64, 3, 2, 3);
+merge_probe_impl!(merge_probe_f64_332, f64, 3, 3, 2);
+merge_probe_impl!(merge_probe_f64_333, f64, 3, 3, 3);
+merge_probe_impl!(merge_probe_f32_222, f32, 2, 2, 2);
+merge_probe_impl!(merge_probe_f32_223, f32, 2, 2, 3);
+merge_probe_impl!(merge_probe_f32_232, f32, 2, 3, 2);
+merge_probe_impl!(merge_probe_f32_233, f32, 2, 3, 3);
+merge_probe_impl!(merge_probe_f32_322, f32, 3, 2, 2);
+merge_probe_impl!(merge_probe_f32_323, f32, 3, 2, 3);
+merge_probe_impl!(merge_probe_f32_332, f32, 3, 3, 2);
+merge_probe_impl!(merge_probe_f32_333, f32, 3, 3, 3);
